@@ -34,6 +34,8 @@ func (g *Global) staticObligations(want map[string]bool) []*Obligation {
 			out = append(out, g.readsNot(d)...)
 		case "readafter":
 			out = append(out, g.readAfter(d)...)
+		case "covers":
+			out = append(out, g.coversFields(d)...)
 		}
 	}
 	return out
@@ -255,4 +257,93 @@ func (g *Global) readAfter(d PkgDecl) []*Obligation {
 		out = append(out, &Obligation{Name: shortFnName(key) + "/readafter:" + target, Fn: shortFnName(key), Kind: "readafter", Props: d.Props, Clause: d.Text, Backend: "static", Static: res, Pos: d.Pos})
 	}
 	return out
+}
+
+// covers [C17] Funcode : layFuncode layHead layTail except Prog lntOnce lnt
+//
+// Every field of the struct is mentioned (as ".Field") in the body of one of the named spec
+// functions, or listed after "except". A field added to the struct without extending the
+// specification it is supposed to be covered by (a serialization layout, a copy, an equality)
+// fails this obligation.
+func (g *Global) coversFields(d PkgDecl) []*Obligation {
+	i := strings.Index(d.Text, " : ")
+	if i < 0 {
+		return nil
+	}
+	tname := strings.TrimSpace(d.Text[:i])
+	rest := strings.Fields(d.Text[i+3:])
+	var fns, except []string
+	seenExcept := false
+	for _, w := range rest {
+		if w == "except" {
+			seenExcept = true
+			continue
+		}
+		w = strings.Trim(w, ",")
+		if seenExcept {
+			except = append(except, w)
+		} else {
+			fns = append(fns, w)
+		}
+	}
+	name := d.Pkg[strings.LastIndex(d.Pkg, "/")+1:] + "." + tname + "/covers"
+	mk := func(static string) *Obligation {
+		return &Obligation{Name: name, Fn: tname, Kind: "covers", Props: d.Props, Backend: "static", Static: static, Pos: d.Pos,
+			Clause: "every field of " + tname + " is specified by " + strings.Join(fns, ", ")}
+	}
+	var stru *types.Struct
+	for _, p := range g.findPkgs(d.Pkg[strings.LastIndex(d.Pkg, "/")+1:]) {
+		if p.Pkg.Path() != d.Pkg {
+			continue
+		}
+		if o := p.Pkg.Scope().Lookup(tname); o != nil {
+			if st, ok := o.Type().Underlying().(*types.Struct); ok {
+				stru = st
+			}
+		}
+	}
+	if stru == nil {
+		return []*Obligation{mk("covers: no struct type " + tname)}
+	}
+	text := ""
+	for _, f := range fns {
+		sf := g.cs.SpecFns[f]
+		if sf == nil {
+			return []*Obligation{mk("covers: unknown spec function " + f)}
+		}
+		text += " " + sf.Body
+	}
+	var missing []string
+	for k := 0; k < stru.NumFields(); k++ {
+		fn := stru.Field(k).Name()
+		skip := false
+		for _, e := range except {
+			if e == fn {
+				skip = true
+			}
+		}
+		if skip {
+			continue
+		}
+		found := false
+		for idx := 0; idx < len(text); {
+			j := strings.Index(text[idx:], "."+fn)
+			if j < 0 {
+				break
+			}
+			end := idx + j + 1 + len(fn)
+			if end >= len(text) || !(text[end] == '_' || text[end] >= 'a' && text[end] <= 'z' || text[end] >= 'A' && text[end] <= 'Z' || text[end] >= '0' && text[end] <= '9') {
+				found = true
+				break
+			}
+			idx = end
+		}
+		if !found {
+			missing = append(missing, fn)
+		}
+	}
+	if len(missing) > 0 {
+		return []*Obligation{mk("fields not covered by the specification: " + strings.Join(missing, ", "))}
+	}
+	return []*Obligation{mk("ok")}
 }
